@@ -138,6 +138,11 @@ func extractMethodsFromNamedType(named *types.Named) []TypeMethod {
 	methodSet := types.NewMethodSet(ptrType)
 	// Method set of T itself: what a value of the type can be used for
 	valueMethodSet := types.NewMethodSet(named)
+	if types.IsInterface(named) {
+		// An annotated interface type carries its methods itself
+		// (a pointer to an interface has none)
+		methodSet = valueMethodSet
+	}
 
 	for i := 0; i < methodSet.Len(); i++ {
 		selection := methodSet.At(i)
